@@ -2,6 +2,7 @@ package vc
 
 import (
 	"fmt"
+	"time"
 	"go/constant"
 	"go/token"
 	"go/types"
@@ -684,6 +685,9 @@ func (x *exec) countPath() {
 	x.e.paths++
 	if x.e.paths > x.e.maxPaths {
 		unsupported("more than %d paths", x.e.maxPaths)
+	}
+	if x.e.paths%64 == 0 && time.Since(x.e.started) > x.e.budget {
+		unsupported("VC generation exceeded its time budget of %s after %d paths", x.e.budget, x.e.paths)
 	}
 }
 
